@@ -160,6 +160,13 @@ def enumerate_cases(tier):
                 for p in (0, 4):
                     out.append({"exc": kind, "cdef": needs_def, "rdef": rdef, "payload": p,
                                 "extra_kw": name})
+    # the callee's onUserError hook raises
+    for kind in ("app", "dec_kw", "undef_runtime", "undef_kw"):
+        uri, has_kw, needs_def = KINDS[kind]
+        for rdef in ("none", "same"):
+            c = {"exc": kind, "cdef": needs_def, "rdef": rdef, "payload": 4 if has_kw else 1, "ue": "raises"}
+            if applicable(c):
+                out.append(c)
     # payload that no serializer can carry
     for rdef in ("none",):
         out.append({"exc": "undef_custom", "cdef": False, "rdef": rdef, "payload": 0,
@@ -400,6 +407,11 @@ def run_case(case, mode, tb, ser):
     b = H.B2B(sers={"callee": ser[0], "caller": ser[1]})
     callee, caller = b.sessions["callee"], b.sessions["caller"]
     callee.traceback_app = tb
+    if case.get("ue") == "raises":
+        # the callee application overrides the documented onUserError hook - and its hook fails
+        def failing_hook(fail, msg):
+            raise RuntimeError("onUserError hook failed")
+        callee.onUserError = failing_hook
     exp_uri, exp_args, exp_kwargs = expected_wire(case)
     rcls = setup_registries(case, callee, caller, exp_uri)
     pending = []
@@ -580,6 +592,8 @@ def shape(case):
         s = (s if s.startswith("apperror") else "custom-class") + "+kw:" + case["extra_kw"]
     if case.get("unserializable"):
         s += "+unserializable"
+    if case.get("ue"):
+        s += "+onUserError-raises"
     needs_def = KINDS[case["exc"]][2]
     d = ("callee-def" if case["cdef"] else "callee-undef") if needs_def else "callee-n/a"
     d += "|caller:" + case["rdef"]
